@@ -3,6 +3,7 @@ import json, os
 from .core import *
 from .queues import *
 from .chan import *
+from . import cover
 
 ALL_ORIGINS8 = list(range(8))
 
@@ -75,6 +76,13 @@ def C02_rings(c):
     if not quick:
         conform_ring(c, "ring_atomic_n4", "ring_atomic", [("2p2c4", [[E(11), E(12), E(13)], [E(21), E(22), E(23)], [D, D, D], [D, D]])], "Trace_RingAtomic", ring_consts,
                      n=4, origins=(0, U32 - 5), bound=3, max_runs=8000, rnd_runs=4000)
+    # --- specification -> implementation: every transition of the L2 state graph is replayed into the real rings
+    cover.cover_ring(c, "ring_atomic_2p1c", "atomic", [[E(11), E(12)], [E(21)], [D, D]])
+    cover.cover_ring(c, "ring_fullsync_2p1c", "fullsync", [[E(11), E(12)], [E(21)], [D, D]])
+    if not quick:
+        cover.cover_ring(c, "ring_atomic_1p2c", "atomic", [[E(11), E(12), E(13)], [D, D], [D]])
+        cover.cover_ring(c, "ring_atomic_len", "atomic", [[E(11), E(12)], [D, L], [L, D]], origin=7)
+        cover.cover_ring(c, "ring_fullsync_2p2c", "fullsync", [[E(11), E(12)], [E(21)], [D, D], [D]])
     c.assumptions.append("L1 oracle: LinQueue monitor (bounded FIFO, capacity rule of the statement); the recorded finding %s is tolerated only through the relaxed rule LqRelaxEmpty" % KF_SPURIOUS_EMPTY)
 
 
@@ -108,6 +116,13 @@ def C13(c):
         for n in (4, 8):
             conform_ring(c, "pool_atomic_n%d" % n, "pool_atomic", scripts, "Trace_RingAtomic", ring_consts, n=n, origins=(0, U32 - n - 1), bound=3, max_runs=4000, rnd_runs=3000, prefill=True, mode="bag")
             conform_ring(c, "pool_fullsync_n%d" % n, "pool_fullsync", scripts, "Trace_RingFullSync", fs_consts, n=n, origins=(0, U32 - n - 1), bound=3, max_runs=4000, rnd_runs=3000, prefill=True, mode="bag")
+    # specification -> implementation: every transition of the pool's L2 state graph replayed into the real allocators
+    cover.cover_ring(c, "pool_atomic_p2", "atomic", [[AL, AL, FR, AL], [AL, FRR, AL]], pool=True)
+    cover.cover_ring(c, "pool_fullsync_p2", "fullsync", [[AL, AL, FR, AL], [AL, FRR, AL]], pool=True)
+    cover.cover_ring(c, "pool_atomic_p2w", "atomic", [[AL, FR, AL], [AL, AL, FRL]], pool=True, origin=6)
+    if not quick:
+        cover.cover_ring(c, "pool_atomic_p3", "atomic", [[AL, AL, FR], [AL, FRR, AL], [AL, FR]], pool=True, origin=7)
+        cover.cover_ring(c, "pool_fullsync_p3", "fullsync", [[AL, AL, FR], [AL, FRR, AL], [AL, FR]], pool=True, origin=7)
     c.assumptions.append("L1 oracle: LinQueue monitor in 'bag' mode (an allocation may return any free id; never an owned one; fails only if every slot is owned or in transit at some instant of the call); "
                          "id<->reference bijection compared on the real pointers by the harness (flag `bij` judged by the trace spec)")
 
@@ -161,6 +176,8 @@ def C18(c):
     trace, runs, v = c.conform(scns, "stack_atomic", "Trace_SpinStack", sconsts)
     judge(c, scns, "stack_atomic", trace, runs, v, "Trace_SpinStack", sconsts, allow_relax=False, l1_module="Trace_LinQueue", l1_consts=lin_consts(2, 4, "lifo"))
     sample_run(c, trace, runs, scns, "validated execution of the real atomic-flag stack")
+    # specification -> implementation: every transition of the spin-flag stack's state graph replayed into the real stack
+    cover.cover_stack(c, "stack_3t", [[PU(11), PO], [PU(21), PO], [PO, PU(31)]] if not quick else [[PU(11), PO], [PU(21), PU(22)], [PO]])
     q_scripts = [("2p2c", [[E(11), E(12)], [E(21), E(22)], [D, D], [D, D]]),
                  ("3p1c", [[E(11), E(12)], [E(21)], [E(31)], [D, D, D]])]
     conform_l1(c, "queue_nb_atomic", "queue_nb_atomic", q_scripts, 2, "fifo", max_runs=mr, rnd_runs=rr)
@@ -291,6 +308,14 @@ def C15(c):
     mr, rr = (300, 150) if quick else (4000, 2000)
     conform_ring(c, "ring_atomic_wrap", "ring_atomic", scripts_a, "Trace_RingAtomic", ring_consts, origins=(big, U32 - 1), max_runs=mr, rnd_runs=rr)
     conform_ring(c, "ring_fullsync_wrap", "ring_fullsync", scripts_a, "Trace_RingFullSync", fs_consts, origins=(big, U32 - 1), max_runs=mr, rnd_runs=rr)
+    # specification -> implementation from every origin of the model's counter modulus: the real counters (started at 2^32 - 8 + o) wrap
+    # exactly where the model's do, and the real code follows every transition of every origin's state graph
+    RS, FL, PB, UL = op("reserve"), (lambda i, v: op("fill", v, i)), (lambda i: op("pub_idx", 0, i)), (lambda i: op("unleak_idx", 0, i))
+    for o in (ALL_ORIGINS8 if not quick else [0, 5, 6, 7]):
+        cover.cover_ring(c, "ring_atomic_1p1c", "atomic", [[E(11), E(12), E(13)], [D, D]], origin=o)
+        cover.cover_ring(c, "ring_fullsync_1p1c", "fullsync", [[E(11), E(12), E(13)], [D, D]], origin=o)
+    for o in ((5, 7) if quick else ALL_ORIGINS8):
+        cover.cover_ring(c, "ring_atomic_resv", "atomic", [[RS, RS, FL(1, 12), UL(1), FL(0, 11), PB(0), RS, FL(0, 13), PB(0)], [D, D, D]], origin=o)
     c.assumptions.append("the L1 oracle has no counters, so acceptance of the same history from every origin *is* origin independence; single-thread histories are additionally compared result by result with origin 0 (incl. reported lengths, panics)")
 
 
@@ -440,6 +465,11 @@ def C08(c):
     for script in ("Script_resv", "Script_resv2"):
         c.mc("MC_RingAtomic", script, ring_consts(procs=2, origins=ALL_ORIGINS8, relax=True, checks=True), subst={"Script": script}, invariants=RING_INV,
              required_actions=["MCCall", "PubIdxCasOk", "UnleakCasOk"], timeout=1200, workers=8)
+    # specification -> implementation: every transition of the reservation state graph replayed into the real ring (incl. across the wrap)
+    RS, FL, PB, UL = op("reserve"), (lambda i, v: op("fill", v, i)), (lambda i: op("pub_idx", 0, i)), (lambda i: op("unleak_idx", 0, i))
+    for o in ((0, 6) if quick else (0, 3, 5, 6, 7)):
+        cover.cover_ring(c, "ring_atomic_resv", "atomic", [[RS, RS, FL(1, 12), UL(1), FL(0, 11), PB(0), RS, FL(0, 13), PB(0)], [D, D, D]], origin=o)
+        cover.cover_ring(c, "ring_atomic_resv2", "atomic", [[RS, FL(0, 11), PB(0), RS, UL(0), RS, FL(0, 12), PB(0), E(13)], [D, D, D]], origin=o)
     checks = ["InvLinearizable", "InvDeliveredAtMostOnce", "InvNoLossNoInvention", "NoPanic", "InvPendingCount"]
     cnt, ln = (8, 8) if quick else (60, 12)
     mr, rr = (150, 100) if quick else (3000, 2000)
@@ -467,6 +497,9 @@ def C16(c):
     kf = kf_open(KF_SPURIOUS_EMPTY) is not None
     c.mc("MC_RingAtomic", "Script_3p1c", ring_consts(procs=4, origins=[0, 7], relax=kf), subst={"Script": "Script_3p1c"}, invariants=RING_INV, required_actions=["MCCall", "EnqRecedeOk", "EnqRecedeFail"], timeout=3000, workers=10)
     c.mc("MC_RingFullSync", "Script_2p1c", fs_consts(procs=3, origins=[0, 7]), subst={"Script": "Script_2p1c"}, invariants=["InvBounds", "InvLinearizable", "InvContents", "InvLockOwner"], required_actions=["MCCall"], timeout=3000, workers=10)
+    # specification -> implementation: the recede paths at the full boundary, every transition, on the real rings
+    cover.cover_ring(c, "ring_atomic_full", "atomic", [[E(11), E(12)], [E(21)], [E(31), D]], origin=7)
+    cover.cover_ring(c, "ring_fullsync_full", "fullsync", [[E(11), E(12)], [E(21)], [E(31), D]], origin=7)
     mr, rr = (150, 100) if quick else (3000, 2000)
     checks = ["InvLinearizable", "InvRejectedSetterUninvoked", "InvDeliveredAtMostOnce", "InvNoLossNoInvention", "InvPendingCount", "InvNoStall", "NoPanic"]
 
@@ -851,6 +884,20 @@ def C14(c):
     if v["mismatches"]:
         c.drift.append("ogre_handles: %d run(s) are not behaviours of OgreArc (first unmatched event: %s)" % (len(v["mismatches"]), json.dumps(v["mismatches"][0]["event"])[:300]))
     sample_run(c, trace, runs, scns, "validated execution of the real OgreArc / OgreUnique handles")
+
+    # specification -> implementation: every transition of the reference-counting state graph replayed into the real handles
+    def jh(scns_, nm, trace_, runs_, v_):
+        for x in v_["violations"]:
+            s2 = dict([s for s in scns_ if s["id"] == x["run"]["scn"]][0])
+            s2["explore"] = {"mode": "replay", "schedules": [x["run"]["choices"]]}
+            c.violation("%s violated by the real code (scenario %s, run %d)" % (x["inv"], x["run"]["scn"], x["run"]["run"]),
+                        {"scenario": s2, "run": x["run"], "events": extract_run(trace_, x["run"]), "module": "Trace_OgreArc", "consts": {k: tla_val(q) for k, q in consts.items()}, "invariant": x["inv"]})
+    cv1 = [[H("clone", **{"from": "a", "to": "c"}), H("drop", h="a"), H("refs", h="c"), H("drop", h="c")],
+           [H("clone", **{"from": "b", "to": "d"}), H("drop", h="d"), H("drop", h="b")], [H("nop")]]
+    cv2 = [[H("incr", **{"from": "a", "tos": ["c", "d"]}), H("drop", h="c"), H("drop", h="a"), H("drop", h="d")],
+           [H("refs", h="b"), H("clone", **{"from": "b", "to": "e"}), H("drop", h="b"), H("drop", h="e")], [H("nop")]]
+    cover.cover_handles(c, "handles_cover1", pre2, [t for t in cv1[:2]], jh)
+    cover.cover_handles(c, "handles_cover2", pre2, [t for t in cv2[:2]], jh)
     c.assumptions.append("one pooled value per run; destruction is observed through the instrumented payload (drop counter, alive marker) and the wrapper allocator")
 
 
@@ -880,6 +927,17 @@ def C19(c):
     if v["mismatches"]:
         c.drift.append("inc_avg: %d run(s) are not behaviours of IncAvg (first unmatched event: %s)" % (len(v["mismatches"]), json.dumps(v["mismatches"][0]["event"])[:300]))
     sample_run(c, trace, runs, scns, "validated execution of the real AtomicIncrementalAverage64")
+
+    # specification -> implementation: every transition of the CAS-retry state graph replayed into the real metric
+    def ja(scns_, nm, trace_, runs_, v_):
+        for x in v_["violations"]:
+            s2 = dict([s for s in scns_ if s["id"] == x["run"]["scn"]][0])
+            s2["explore"] = {"mode": "replay", "schedules": [x["run"]["choices"]]}
+            c.violation("%s violated by the real code (scenario %s, run %d)" % (x["inv"], x["run"]["scn"], x["run"]["run"]),
+                        {"scenario": s2, "run": x["run"], "events": extract_run(trace_, x["run"]), "module": "Trace_IncAvg", "consts": {k: tla_val(q) for k, q in consts.items()}, "invariant": x["inv"]})
+    cover.cover_avg(c, "avg_2r1p", [[INC(1.5), INC(2.0)], [INC(3.0), INC(-1.0)], [PR, PR]], ja)
+    if not quick:
+        cover.cover_avg(c, "avg_3r", [[INC(1.5), INC(2.0)], [INC(3.0)], [INC(-1.0), PR]], ja)
     c.assumptions.append("TLC has no floats: the average is symbolic in the model; the harness re-computes, with the library's own f32 formula, whether a probed (count, average) pair is the fold of some "
                          "interleaving of per-thread prefixes (bit-exact), and checks the final mean in f64 within 1e-3 relative tolerance -- the one clause of C19 that TLA+ does not decide")
 
